@@ -33,6 +33,13 @@ func C10_Logout() {
 		}
 	})
 	white := len(f.w.AB.Config.Storage.SessionStateWhitelistKeys) > 0
+	// an application hook after the logout that may answer the request itself
+	if verif.Choice("app-after-logout-hook", 2) == 1 {
+		f.w.AB.Events.After(authboss.EventLogout, func(wr http.ResponseWriter, r *http.Request, handled bool) (bool, error) {
+			wr.WriteHeader(200)
+			return true, nil
+		})
+	}
 	// application keys
 	for _, k := range []string{"app_w", "app_x"} {
 		f.w.Session.SetP(k, verif.String("S_"+k, 3), verif.Bool("has_"+k))
